@@ -106,6 +106,14 @@ def strategy(tier):
         if draw(st.integers(0, 9)) < 6:
             return dict(src="aom", aom=draw(aom_args(thorough)), dec=dec)
         c, n, tp = draw(gens.cfg(max_dim=208 if thorough else 176, frames=(2, 12), allow_twopass=False, slow_p=10 if thorough else 4, lps=(2, 4), recon=0))
+        if draw(st.integers(0, 7)) == 0:
+            # streams longer than the 7-bit order-hint period: reference distances are computed across the wrap
+            c["source_width"], c["source_height"], c["enc_mode"] = draw(st.sampled_from([(64, 64), (96, 64), (128, 128)])), 8, 8
+            c["source_width"], c["source_height"] = c["source_width"]
+            for k in ("superres_mode", "superres_denom", "superres_kf_denom", "film_grain_denoise_strength", "rate_control_mode", "target_bit_rate", "min_qp_allowed", "max_qp_allowed", "enable_overlays"):
+                c.pop(k, None)
+            c["intra_period_length"] = draw(st.sampled_from([-1, -1, 63, 200]))
+            n = draw(st.integers(125, 170))
         return dict(src="svt", enc=gens.case_from(c, n, tp, draw(gens.content())), dec=dec)
     return s()
 
